@@ -105,6 +105,42 @@ def c_rules(tu):
                         detail="s %s s must empty the set; iterating self "
                                "while removing from it skips elements" % (
                                    "-=" if "subtract" in slot else "^="), path=[]))
+            # ---- INPLACE-MONOTONE ----------------------------------------------
+            # a loop of an in-place operator may only add to self or only
+            # remove from self: a loop that does both (direction chosen by
+            # membership in the container it is modifying) toggles an element
+            # once per occurrence in the operand
+            for slot in ("nb_inplace_subtract", "nb_inplace_xor", "nb_inplace_or", "nb_inplace_and"):
+                v = slots.get(slot)
+                if not v or v[0] != "fn":
+                    continue
+                fn = tu.func(v[1])
+                for lp in fn.walk():
+                    if lp.k not in ("WhileStmt", "ForStmt", "DoStmt"):
+                        continue
+                    kinds = set()
+                    for x in lp.walk():
+                        if x.k == "CallExpr" and callee(x)[0] == "fn" and \
+                                callee(x)[1] in ("_bucket_set", "_BTree_set") and len(x.kids) > 3:
+                            a = strip(x.kids[3])
+                            stats["inplace_loop_mutations"] = stats.get("inplace_loop_mutations", 0) + 1
+                            if a is not None and a.k == "ConditionalOperator":
+                                kinds |= {"add", "remove"}
+                            elif const_int(a) == 0:
+                                kinds.add("remove")
+                            else:
+                                kinds.add("add")
+                    if kinds == {"add", "remove"}:
+                        findings.append(dict(
+                            rule="INPLACE-MONOTONE", function=v[1], file=fn.f, line=lp.l,
+                            construct="one loop of %s both adds to and removes from self" % v[1],
+                            detail="the loop decides per element, against the "
+                                   "contents it has already modified, whether to "
+                                   "add or to remove: an element that occurs "
+                                   "twice in the operand is toggled twice "
+                                   "(s ^= [1, 1] leaves s unchanged instead of "
+                                   "adding 1). Decide against the original "
+                                   "contents first, then apply", path=[]))
     # ---- FRESH-ONLY ----------------------------------------------------------------
     for name, fn in tu.funcs.items():
         if fn.f not in SETOP_FILES:
@@ -270,6 +306,87 @@ def py_rules(res):
                 detail="s %s s must empty the set; iterating self while "
                        "mutating it skips elements or raises" % ("-=" if m == "__isub__" else "^="), path=[]))
     res.count("PY-ALIAS-GUARD", k)
+    # INPLACE-MONOTONE / INPLACE-OPERAND (Python)
+    k = 0
+    ADD, REM = ("add", "update", "insert"), ("discard", "remove", "pop")
+    for m in ("__ior__", "__iand__", "__isub__", "__ixor__"):
+        f = mm.get(m)
+        if not isinstance(f, ast.FunctionDef):
+            res.findings.add(dict(rule="OP-WIRING", function="_MutableSetMixin.%s" % m, file=REL,
+                                  line=ms.lineno, construct="%s missing" % m, detail="in-place operator missing", path=[]))
+            continue
+        other = f.args.args[1].arg
+        for lp in ast.walk(f):
+            if not isinstance(lp, (ast.For, ast.While)):
+                continue
+            k += 1
+            kinds = set()
+            for c in ast.walk(lp):
+                if isinstance(c, ast.Call) and isinstance(c.func, ast.Attribute) and \
+                        pyfront.unparse(c.func.value) == "self":
+                    if c.func.attr in ADD:
+                        kinds.add("add")
+                    elif c.func.attr in REM:
+                        kinds.add("remove")
+            if kinds == {"add", "remove"}:
+                res.findings.add(dict(
+                    rule="INPLACE-MONOTONE", function="_MutableSetMixin.%s" % m, file=REL, line=lp.lineno,
+                    construct="one loop of %s both adds to and removes from self" % m,
+                    detail="the loop decides per element, against the contents "
+                           "it has already modified, whether to add or to "
+                           "remove: an element that occurs twice in the operand "
+                           "is toggled twice. Decide against the original "
+                           "contents first, then apply", path=[]))
+        # the foreign operand is consumed exactly once: as the iterable of one
+        # for loop, as the argument of self.update, or as the operand of a set
+        # operator with self; never as the right side of `in` (a one-shot
+        # iterator is used up by the first test, a str tests substrings)
+        uses = []
+        parents = {}
+        for n2 in ast.walk(f):
+            for ch in ast.iter_child_nodes(n2):
+                parents[ch] = n2
+        for n2 in ast.walk(f):
+            if isinstance(n2, ast.Name) and n2.id == other and isinstance(n2.ctx, ast.Load):
+                par = parents.get(n2)
+                if isinstance(par, ast.Compare) and all(isinstance(o, (ast.Is, ast.IsNot)) for o in par.ops):
+                    continue
+                k += 1
+                how = None
+                if isinstance(par, ast.For) and par.iter is n2:
+                    how = "for"
+                elif isinstance(par, ast.Call) and pyfront.unparse(par.func) == "self.update" and n2 in par.args:
+                    how = "update"
+                elif isinstance(par, ast.BinOp) and isinstance(par.op, (ast.Sub, ast.BitOr, ast.BitAnd, ast.BitXor)) \
+                        and "self" in (pyfront.unparse(par.left), pyfront.unparse(par.right)):
+                    how = "setop"
+                uses.append((how, n2))
+                if how is None:
+                    res.findings.add(dict(
+                        rule="INPLACE-OPERAND", function="_MutableSetMixin.%s" % m, file=REL, line=n2.lineno,
+                        construct="%s uses its operand in `%s`" % (m, pyfront.unparse(par)[:60]),
+                        detail="the operand of an in-place set operator may be any "
+                               "iterable, including a one-shot iterator: it has to "
+                               "be consumed exactly once (for loop, self.update or "
+                               "a set operator with self). A membership test "
+                               "against it uses an iterator up and means substring "
+                               "search for a str", path=[]))
+        if len([u for u in uses if u[0]]) > 1:
+            branches = set()
+            for how, n2 in uses:
+                x, sig = n2, []
+                while x in parents:
+                    px = parents[x]
+                    if isinstance(px, ast.If):
+                        sig.append((id(px), "body" if any(x is b or any(x is y for y in ast.walk(b)) for b in px.body) else "else"))
+                    x = px
+                branches.add(tuple(sig))
+            if len(branches) < len([u for u in uses if u[0]]):
+                res.findings.add(dict(
+                    rule="INPLACE-OPERAND", function="_MutableSetMixin.%s" % m, file=REL, line=f.lineno,
+                    construct="%s consumes its operand more than once on a path" % m,
+                    detail="a one-shot iterator is empty the second time", path=[]))
+    res.count("PY-INPLACE", k)
     # OPERAND-ADAPT (Python): _SetIteration sorts and dedupes arbitrary iterables
     si = cls.get("_SetIteration")
     init = pyfront.class_members(si).get("__init__") if si else None
